@@ -1,6 +1,7 @@
 (* C17 — Key patterns match as Redis globs.  Property theorems only. *)
 From Coq Require Import String.
-From GR Require Import Base Glob GlobFacts.
+From Coq Require Import List ZArith Permutation.
+From GR Require Import Base Glob GlobFacts Redis Store StoreScan.
 
 (* For every pattern p and key k (byte strings; the Go code works on runes, which coincide with bytes
    on ASCII): the regular-expression text regexpFromGlob builds lies in the parsed fragment — so
@@ -24,3 +25,39 @@ Example C17_ex2 : glob_match (B"a+(b|$") (B"a+(b|$") = true /\ glob_match (B"a?c
 Proof. vm_compute. auto. Qed.
 Example C17_ex3 : re_parse (regexp_from_glob (B"a+(*?")) = Some [Lit 97; Lit 43; Lit 40; AnyStar; Any]%N.
 Proof. vm_compute. reflexivity. Qed.
+
+(* KEYS and SCAN MATCH agree on which keys a pattern selects — on the model of the bundled example store (Store.v, tied
+   to examples/go-redisd/server by the correspondence run).  SCAN is used the way a client uses it: SCAN 0, then SCAN
+   <returned cursor> until the cursor comes back as 0.  For EVERY database d, glob pattern p and COUNT (1, the default
+   10, negative, anything): the iteration ends within (number of keys + 1) calls, and the keys collected are a
+   permutation of the KEYS p reply: the same keys, none lost, none twice. *)
+Theorem C17_scan_iteration_agrees_with_keys : forall (d : db) (p : bytes) (count : Z),
+  exists ks, scan_iter (S (length d)) (sort_keys (map fst d)) 0 count (regexp_from_glob p) = Some ks /\
+             Permutation ks (filter (fun k => glob_match p k) (map fst d)).
+Proof. exact scan_iteration_agrees_with_keys. Qed.
+Print Assumptions C17_scan_iteration_agrees_with_keys.
+
+(* what the store model answers to one SCAN is that call, printed — the link between the theorem above and Store.sprim *)
+Theorem C17_scan_reply : forall d cur o,
+  sprim d (Handler.HScan cur o) =
+  (d, let (nx, ks) := scan_call (sort_keys (map fst d)) cur (Handler.sc_count o) (Handler.sc_match o) in
+      ok (Resp.RArr [Exec.bulk (itoa nx); Resp.RArr (map Exec.bulk ks)])).
+Proof. exact sprim_scan. Qed.
+Print Assumptions C17_scan_reply.
+
+(* the code as found (cursor = index of the last key visited, end test `lastCursor == len(keys)`) did not have the
+   property: with COUNT 1 the first reply says "complete" after one key, with COUNT 2 the cursor never returns to 0 *)
+Theorem C17_scan_as_found_stops_early_refuted :
+  exists keys src, forall fuel, scan_iter0 (S fuel) keys 0 1 src = Some [B"a"] /\ filter (scan_match src) keys = [B"a"; B"b"; B"c"].
+Proof. exact scan_as_found_stops_early. Qed.
+Print Assumptions C17_scan_as_found_stops_early_refuted.
+Theorem C17_scan_as_found_never_ends_refuted : exists keys src, forall fuel, scan_iter0 fuel keys 0 2 src = None.
+Proof. exact scan_as_found_never_ends. Qed.
+Print Assumptions C17_scan_as_found_never_ends_refuted.
+
+Example C17_ex_scan :
+  let d : db := [(B"b", VStr (B"1")); (B"a.c", VStr (B"2")); (B"abc", VStr (B"3")); (B"a", VStr (B"4"))] in
+  scan_iter 5 (sort_keys (map fst d)) 0 1 (regexp_from_glob (B"a*")) = Some [B"a"; B"a.c"; B"abc"] /\
+  scan_call (sort_keys (map fst d)) 0 2 (regexp_from_glob (B"*")) = (2%Z, [B"a"; B"a.c"]) /\
+  scan_call (sort_keys (map fst d)) 2 2 (regexp_from_glob (B"*")) = (0%Z, [B"abc"; B"b"]).
+Proof. exact scan_ex. Qed.
